@@ -100,7 +100,7 @@ def plan(tier):
 
 def describe(tier):
     return {
-        'rule': 'E1: every circuit of F(n,k,A) x output policy (none, sequences of <=2 nodes incl. '
+        'rule': 'E1: every circuit of F(n,k,A) (for n+k<=3 and the unary/chain families also with reversed, non-topological storage order) x output policy (none, sequences of <=2 nodes incl. '
         'inputs/repeats, all sinks; "core" = none, each single node, (last,last),(last,x0),(x0,last), sinks) '
         'x transformer (RRG, RRG(allow_inputs_removal), MergeUnary, MergeDuplicate, MergeEquivalent, '
         'cleanup light/heavy, all 25 two-pass pipes a|b). A case = (circuit, outputs, transformer); '
@@ -125,14 +125,16 @@ def probe():
     return out
 
 
-def check_one(n, gates, outs, tname, acc, c=None, net=None, ref=None):
+def check_one(n, gates, outs, tname, acc, c=None, net=None, ref=None, storage=None):
     fn, removes = transformers()[tname]
     labs = space.labels(n, len(gates))
     if c is None:
         c = space.build(n, gates, outs)
         net = space.spec_net(n, gates, outs)
         ref = net.tables()
-    case = lambda: {**space.spec_json(n, gates, outs), 'transformer': tname}  # noqa: E731
+    if storage == 'scrambled' and c is not None and net is None:
+        pass
+    case = lambda: {**space.spec_json(n, gates, outs), 'transformer': tname, 'storage': storage}  # noqa: E731
     before = refmodel.abstract(c).key()
     users_before = refmodel.users_snapshot(c)
     acc.transitions += 1
@@ -147,6 +149,8 @@ def check_one(n, gates, outs, tname, acc, c=None, net=None, ref=None):
         # rebuild so that later transformers see the intended circuit
         c.__init__()
         c2 = space.build(n, gates, outs)
+        if storage == 'scrambled':
+            space.scramble_storage(c2)
         c.__dict__.update(c2.__dict__)
     try:
         rnet = refmodel.abstract(r)
@@ -203,7 +207,7 @@ def check_one(n, gates, outs, tname, acc, c=None, net=None, ref=None):
     acc.outcome('shape', (tname, rnet.size(), len(rin), len(rout)))
 
 
-def check_circuit(n, gates, acc, tnames, pol):
+def check_circuit(n, gates, acc, tnames, pol, scramble=False):
     k = len(gates)
     if pol == 'all':
         pols = space.output_policies(n, k, 2, gates=gates)
@@ -221,6 +225,10 @@ def check_circuit(n, gates, acc, tnames, pol):
         net = refmodel.Net(net0.inputs, [labs[o] for o in outs], net0.gates)
         for tname in tnames:
             check_one(n, gates, outs, tname, acc, c, net, ref)
+        if scramble:
+            c2 = space.scramble_storage(space.build(n, gates, outs))
+            for tname in tnames:
+                check_one(n, gates, outs, tname, acc, c2, net, ref, storage='scrambled')
     acc.sample({**space.spec_json(n, gates, pols[-1]), 'transformers': list(tnames)[:8]})
 
 
@@ -237,12 +245,17 @@ def _tnames(sel):
 def run_task(task, acc):
     alpha = ALPHAS[task['alpha']]
     tn = _tnames(task['tnames'])
+    scramble = task['tnames'] == 'unary' or task['n'] + task['k'] <= 3
     for gates in space.enum_gates(task['n'], task['k'], alpha, space.prefix_from_task(task)):
-        check_circuit(task['n'], gates, acc, tn, task['pol'])
+        check_circuit(task['n'], gates, acc, tn, task['pol'], scramble)
 
 
 def replay(case, acc):
     if 'task' in case:
         return run_task(case['task'], acc)
     n, gates, outs = space.spec_from_json(case)
+    if case.get('storage') == 'scrambled':
+        c = space.scramble_storage(space.build(n, gates, outs))
+        net = space.spec_net(n, gates, outs)
+        return check_one(n, gates, outs, case['transformer'], acc, c, net, net.tables(), storage='scrambled')
     check_one(n, gates, outs, case['transformer'], acc)
